@@ -50,6 +50,8 @@ Clauses(ev) ==
     CASE ev.e = "step"   -> StepViol(ev)
       [] ev.e = "sort"   -> SortEvViol(ev)
       [] ev.e = "reload" -> IF ev.rc # 0 THEN {"ReloadFails"} ELSE ReloadViol(ev.pre, ev.post)
+      [] ev.e = "fault"  -> V(ev.load = 0, "StillLoads") \cup
+                            (IF ev.load # 0 THEN {} ELSE V(ev.save = 0, "SaveReturns") \cup V(ev.reload = 0, "SavedFileLoads"))
       [] ev.e = "crash"  -> {"NoCrash"}
       [] OTHER           -> {}
 
